@@ -37,4 +37,16 @@ CLAIMS = {
     design_ref="DESIGN.md §3 C06",
     note=_corr + "Unicode to_lowercase modelled as ASCII; built-in tables are inputs of the model (dumped from the code).",
     technique="Lean 4 proof (list all/any, structural recursion) + differential correspondence"),
+ "C07": dict(
+    text="Translator by execution + kernel decision: the holiday tables, week masks, documented names and fixing dates are "
+         "re-extracted from the running code and data files on every run into Lean constants, and the Lean kernel "
+         "re-proves (decide +kernel) that each of the 7 fully published calendars equals its rule-generated table on "
+         "every weekday 1970-2200 (C07_full_*), 'all'/'bus' are empty, 'fed' = 'nyc' minus Good Friday, the 5 partial "
+         "rule sets are contained (C07_partial_*), every documented name resolves, and the 9 fixing histories equal the "
+         "business days (C07_fixings_*). Complete, not sampled; plus an exhaustive date-by-date correspondence run "
+         "that yields the failing date as replay.",
+    design_ref="DESIGN.md §3 C07",
+    note="Trusted: the dump (harness walks is_weekday/is_holiday over all 84371 dates), the docstring/CSV parsers, the "
+         "transcription of the pandas rule scripts into Lean (specification), Lean kernel (GMP arithmetic in decide +kernel).",
+    technique="Lean 4 kernel decision (decide +kernel) over tables regenerated from the running code"),
 }
